@@ -27,7 +27,7 @@ YIELD_FILES = ("yowsup/layers/noise/layer.py", "yowsup/layers/noise/workers/hand
                "consonance/streams/segmented/blockingqueue.py", "consonance/protocol.py", "consonance/transport.py", "yowsup/layers/__init__.py",
                "yowsup/layers/coder/layer.py")
 HISTORIES = ["plain", "plain", "plain", "retry-after-cutoff", "retry-after-partial-reply", "reconnect-after-transport", "corrupt-reply",
-             "retry-after-corrupt"]
+             "retry-after-corrupt", "relogin-after-server-failure"]
 _counter = [0]
 
 
@@ -365,8 +365,31 @@ class Case(object):
             if stored.client_static_keypair is None or bytes(stored.client_static_keypair.private.data) != bytes(cfg.client_static_keypair.private.data):
                 return self.fail("keypair-lost-on-rewrite", "client key pair changed when the config was rewritten")
             acc.count("key_persisted")
-        if history == "reconnect-after-transport":
-            T.disconnected()
+        if history == "relogin-after-server-failure":
+            # the server ends the session with <failure/>: the layer above closes the connection from inside the delivery of that
+            # frame (as the authentication layer does); the same segment carries the beginning of a further frame that never
+            # completes. Then a new login on the same stack.
+            closed = []
+
+            def on_receive(node):
+                if getattr(node, "tag", None) == "failure" and not closed:
+                    closed.append(1)
+                    T.disconnected()
+            T.top.on_receive = on_receive
+            fl = srv.encrypt(refcodec.encode_canonical(("failure", {"reason": "not-authorized"}, [], None)))
+            c_ = r.random()
+            tail = b"" if c_ < 0.2 else bytes([0]) if c_ < 0.4 else bytes([0, r.randint(0, 255)]) if c_ < 0.6 else bytes([0, 0, 40]) + gen.blob(r, r.randint(0, 39))
+            T.deliver(fl + tail)
+            ok_ = self.sync(T, srv)
+            T.top.on_receive = None
+            if not ok_:
+                return False
+            if not closed:
+                return self.fail("server-failure-not-delivered", "a <failure/> stanza sent after the handshake did not reach the top")
+            acc.count("server_failure_closes")
+        if history in ("reconnect-after-transport", "relogin-after-server-failure"):
+            if history == "reconnect-after-transport":
+                T.disconnected()
             acc.count("reconnects")
             srv2 = noisepeer.NoiseServer(static=server_static)
             self.s2c_expected = []
@@ -380,9 +403,15 @@ class Case(object):
                 return self.fail("relogin-server-error", "second login rejected: %s" % srv2.errors)
             if srv2.variant != "IK":
                 return self.fail("relogin-not-resumed", "second login did not use the stored server key (variant %s)" % srv2.variant)
-            T.wait(lambda: T.noise._wa_noiseprotocol.state == "transport", 20)
+            if not T.wait(lambda: T.noise._wa_noiseprotocol.state in ("transport", "error"), 20) or T.noise._wa_noiseprotocol.state != "transport":
+                if T.noise._wa_noiseprotocol.state == "error" or self.workers_idle():
+                    return self.fail("relogin-client-incomplete:%s" % history, "the server completed the second login but the client did not (client state %s)" % T.noise._wa_noiseprotocol.state)
+                return self.blocked_or_inconclusive(T, "client never finished the second login", "relogin-client-hangs")
             st = stanza(r, "again")
-            T.top.send(treeeq.to_node(st))
+            try:
+                T.top.send(treeeq.to_node(st))
+            except Exception as e:  # noqa
+                return self.fail("relogin-send-raises:%s" % type(e).__name__, "sending after the second login raised %r" % (e,))
             if srv2.state == "error" or len(srv2.received) != 1 or treeeq.diff(st, refcodec.decode(srv2.received[0])):
                 return self.fail("relogin-traffic", "stanza after re-login did not arrive intact: %s" % srv2.errors)
             acc.count("relogins")
